@@ -101,11 +101,15 @@ def generate_dispatch(ov, arganal):
         lookup.append(f"{lookup_for(i)}({name})")
         i += 1
 
-    if len(po) <= 1 and (spr or spo):
-        # If there are more than one non-strictly positional optional arguments,
-        # then all positional arguments are strictly positional, because if e.g.
-        # x and y are optional we want x==MISSING to imply that y==MISSING, but
-        # that only works if y cannot be provided as a keyword argument.
+    # If there are more than one optional positional arguments, then all
+    # positional arguments are strictly positional, because if e.g. x and y
+    # are optional we want x==MISSING to imply that y==MISSING, but that only
+    # works if y cannot be provided as a keyword argument. The strictly
+    # positional optional arguments count as well: a later argument given by
+    # keyword would be dropped when one of them is omitted.
+    all_strict = len(spo) + len(po) > 1
+
+    if not all_strict and (spr or spo):
         args.append("/")
 
     for name in pr + po:
@@ -117,7 +121,7 @@ def generate_dispatch(ov, arganal):
         lookup.append(f"{lookup_for(i)}({name})")
         i += 1
 
-    if len(po) > 1:
+    if all_strict:
         args.append("/")
 
     if kr or ko:
